@@ -346,7 +346,7 @@ Proof.
     intros [] x _ HR. cbn [ustep]. cbn [out_step]. eexists. split; [reflexivity|]. eapply ROut_fail. exact HR. }
   destruct (n <? 0) eqn:En.
   - destruct rest as [|[?|?|e] ?]; inversion E; subst; try exact Hfail.
-    destruct (is_eagain e); [exact H2|exact Hfail].
+    destruct (is_eagain e); [apply O_emit; [oign|exact H2]|exact Hfail].
   - inversion E; subst. split; [lia|].
     assert (Hb : ztake n offered = ztake n src).
     { subst offered. destruct exact; [reflexivity|]. apply ztake_ztake. lia. }
@@ -841,7 +841,7 @@ Proof.
     + rewrite <- Ed in *. destruct (l_et (st w)); [|inversion E; subst; exact H2].
       destruct (_ <? _).
       * eapply (mo_elwrite _ M); eauto.
-      * eapply O_trigger; [|exact H2|exact E]. reflexivity.
+      * eapply O_trigger; [| |exact E]; [reflexivity|]. apply O_emit; [oign|exact H2].
   - destruct (is_eagain e).
     + inversion E; subst. eapply O_pend_leave. exact H1.
     + eapply (mo_close _ M); eauto.
